@@ -529,12 +529,15 @@ class Textgrid:
         reportingMode: Literal["silence", "warning", "error"] = "warning",
     ) -> None:
         tierIndex = self.tierNames.index(name)
+        oldMin, oldMax = self.minTimestamp, self.maxTimestamp
         oldTier = self.removeTier(name)
         try:
             self.addTier(newTier, tierIndex, reportingMode)
         except Exception:
-            # Leave the textgrid as it was
+            # Leave the textgrid as it was (putting the old tier back must not
+            # widen the span if that tier has grown since it was added)
             self.addTier(oldTier, tierIndex, constants.ErrorReportingMode.SILENCE)
+            self.minTimestamp, self.maxTimestamp = oldMin, oldMax
             raise
 
     def validate(
